@@ -1,53 +1,440 @@
 mod dec;
 mod enc;
+mod gen;
 mod judge;
 mod kinds;
 mod model;
 mod panichook;
 mod plan;
 mod rng;
+mod runner;
 mod shim;
 mod sim;
 mod stream;
 mod tlsfix;
 mod tlssim;
 
-use plan::*;
+use runner::*;
+use serde_json::json;
+use std::collections::BTreeMap;
+use std::io::Write;
+use std::os::unix::io::FromRawFd;
+
+pub const DEFAULT_SEED: u64 = 20_260_104;
+
+static mut OUT_FD: i32 = 1;
+
+fn out() -> std::mem::ManuallyDrop<std::fs::File> {
+    // SAFETY: OUT_FD is written once at startup before any thread is spawned
+    std::mem::ManuallyDrop::new(unsafe { std::fs::File::from_raw_fd(OUT_FD) })
+}
+
+macro_rules! say {
+    ($($a:tt)*) => {{
+        let mut o = out();
+        let _ = writeln!(&mut *o, $($a)*);
+    }};
+}
+
+/// The library prints to stdout (`println!("read {}", f)` in value/decode.rs); keep our own
+/// output on a private duplicate of fd 1 and point fd 1 at /dev/null.
+fn redirect_stdout() {
+    unsafe {
+        let saved = libc::dup(1);
+        let devnull = libc::open(b"/dev/null\0".as_ptr() as *const libc::c_char, libc::O_WRONLY);
+        if saved >= 0 && devnull >= 0 {
+            libc::dup2(devnull, 1);
+            libc::close(devnull);
+            OUT_FD = saved;
+        }
+    }
+}
+
+fn all_checks() -> Vec<Box<dyn Check>> {
+    gen::all_checks()
+}
+
+fn find_check(id: &str) -> Box<dyn Check> {
+    for c in all_checks() {
+        if c.id() == id {
+            return c;
+        }
+    }
+    eprintln!("harness: unknown property id {}", id);
+    std::process::exit(2)
+}
+
+fn seed_from_env() -> u64 {
+    match std::env::var("VERIF_SEED") {
+        Ok(s) if !s.trim().is_empty() => match s.trim().parse::<u64>() {
+            Ok(v) => v,
+            Err(_) => match s.trim().parse::<i64>() {
+                Ok(v) => v as u64,
+                Err(_) => rng::fnv(s.as_bytes()),
+            },
+        },
+        _ => DEFAULT_SEED,
+    }
+}
+
+fn components() -> serde_json::Value {
+    json!({
+        "real": ["msql-srv: MysqlIntermediary::run_on/init/run, PacketConn (read loop, write path, seq ids, switch_to_tls), commands, params, resultset, writers, value::{encode,decode}, errorcodes, tls::{SwitchableConn,PrependedReader}", "nom", "byteorder", "mysql_common (lenenc helpers, constants)", "chrono", "rustls 0.22 server side (seeded CryptoProvider)"],
+        "stub": ["transport: SimStream (Read+Write) instead of TcpStream", "MySQL client: scripted client model + independent decoder (for TLS: real rustls ClientConnection driven in memory)", "application: SimShim interpreting generated writer programs", "OS: none involved (one run = one function call on one thread)"]
+    })
+}
+
+fn cmd_run(id: &str, tier: Tier) -> i32 {
+    let check = find_check(id);
+    let known = Known::load();
+    let seed = seed_from_env();
+    say!("simcheck {} {} VERIF_SEED={}", id, tier.name(), seed);
+    let res = run_batch(check.as_ref(), tier, seed, &known);
+    let mut side = BTreeMap::new();
+    let mut side_viol: Vec<(String, judge::Violation)> = Vec::new();
+    check.side_checks(&mut side, &mut side_viol);
+
+    let st = &res.stats;
+    if !st.determinism_mismatch.is_empty() {
+        say!(
+            "HARNESS-ERROR: determinism self-check failed for job(s) {:?}",
+            &st.determinism_mismatch[..st.determinism_mismatch.len().min(5)]
+        );
+        write_evidence(check.as_ref(), tier, seed, &res, &side, 0, &[]);
+        return 2;
+    }
+
+    // known findings
+    for (k, (n, detail)) in &st.known_hits {
+        say!("KNOWN-FINDING: property={} {} (hit {} time(s); e.g. {})", id, k, n, detail);
+    }
+
+    // violations: minimise, write replay, confirm in a fresh process
+    let mut violation_lines = Vec::new();
+    let mut seen_sigs: Vec<(String, String)> = Vec::new();
+    let mut exit = 0;
+    for f in &st.failures {
+        let sig = Signature {
+            rule: f.violation.rule.to_string(),
+            site: f.violation.site.clone(),
+        };
+        if seen_sigs.contains(&(sig.rule.clone(), sig.site.clone())) {
+            continue;
+        }
+        seen_sigs.push((sig.rule.clone(), sig.site.clone()));
+        let (min_plan, tried) = minimise(check.as_ref(), &known, &f.plan, &sig);
+        let dir = verif_dir().join("replays");
+        let _ = std::fs::create_dir_all(&dir);
+        let path = dir.join(format!("{}-{}-{}-{}.json", id, seed, f.job, f.sub));
+        let rf = ReplayFile {
+            format: 1,
+            property: id.to_string(),
+            signature: sig.clone(),
+            detail: f.violation.detail.clone(),
+            found_by: json!({"seed": seed, "tier": tier.name(), "job": f.job, "sub": f.sub, "minimiser_candidates": tried}),
+            minimised_from_cmds: f.plan.cmds.len(),
+            plan: min_plan,
+        };
+        std::fs::write(&path, serde_json::to_string_pretty(&rf).unwrap()).expect("write replay");
+        // fresh-process confirmation
+        let exe = std::env::current_exe().unwrap();
+        let status = std::process::Command::new(exe)
+            .arg("replay")
+            .arg(&path)
+            .arg("--quiet")
+            .status();
+        match status {
+            Ok(s) if s.code() == Some(1) => {
+                say!("  {} / {}: {}", sig.rule, sig.site, f.violation.detail);
+                say!("VIOLATION property={} replay={}", id, path.display());
+                violation_lines.push(format!("{} | {} | {}", sig.rule, sig.site, f.violation.detail));
+                exit = 1;
+            }
+            other => {
+                say!(
+                    "HARNESS-ERROR: replay of {} did not reproduce {:?} in a fresh process ({:?})",
+                    path.display(),
+                    sig,
+                    other
+                );
+                return 2;
+            }
+        }
+    }
+    for (name, v) in &side_viol {
+        // side checks have no plan; the replay file describes the failing table entry
+        let dir = verif_dir().join("replays");
+        let _ = std::fs::create_dir_all(&dir);
+        let path = dir.join(format!("{}-side-{}.json", id, name));
+        let _ = std::fs::write(
+            &path,
+            serde_json::to_string_pretty(&json!({"format": 1, "property": id, "side_check": name, "rule": v.rule, "site": v.site, "detail": v.detail})).unwrap(),
+        );
+        say!("  side check {}: {}", name, v.detail);
+        say!("VIOLATION property={} replay={}", id, path.display());
+        violation_lines.push(format!("side:{} | {}", name, v.detail));
+        exit = 1;
+    }
+    write_evidence(check.as_ref(), tier, seed, &res, &side, violation_lines.len(), &violation_lines);
+    say!(
+        "{} {}: {} runs in {:.1}s ({} workers{}), {} distinct non-trivial, violations: {}",
+        id,
+        tier.name(),
+        st.evaluations,
+        res.wall_s,
+        res.workers,
+        if res.truncated { ", TRUNCATED" } else { "" },
+        st.plan_sigs.len(),
+        violation_lines.len()
+    );
+    exit
+}
+
+fn write_evidence(
+    check: &dyn Check,
+    tier: Tier,
+    seed: u64,
+    res: &BatchResult,
+    side: &BTreeMap<String, serde_json::Value>,
+    nviol: usize,
+    viol: &[String],
+) {
+    let st = &res.stats;
+    let runs_per_hour = if res.wall_s > 0.0 {
+        (st.evaluations as f64 / res.wall_s * 3600.0) as u64
+    } else {
+        0
+    };
+    let mut faults = BTreeMap::new();
+    let mut probes = BTreeMap::new();
+    for (k, v) in &st.counters {
+        if k.starts_with("fault.") {
+            faults.insert(k.to_string(), *v);
+        } else {
+            probes.insert(k.to_string(), *v);
+        }
+    }
+    let unreached: Vec<&str> = check
+        .probes()
+        .iter()
+        .filter(|p| st.counters.get(*p).copied().unwrap_or(0) == 0)
+        .copied()
+        .collect();
+    let samples: Vec<serde_json::Value> = st.samples.iter().map(|s| s.1.clone()).collect();
+    let ev = json!({
+        "property_id": check.id(),
+        "tier": tier.name(),
+        "seed": seed,
+        "level": check.level(),
+        "coverage": {
+            "evaluations": st.evaluations,
+            "distinct_nontrivial": st.plan_sigs.len(),
+            "distinct_nontrivial_capped": st.sig_capped,
+            "rule": check.rule_text(),
+            "samples": samples,
+            "decided_by": check.decided_by(),
+            "jobs": {"done": res.jobs_done, "total": res.jobs_total},
+            "truncated": res.truncated,
+            "nontrivial_runs": st.nontrivial,
+            "distinct_trace_shapes": st.trace_shapes.len(),
+            "simulated_time": {"unit": "transport operations (the code has no clock)", "transport_ops": st.ops, "client_bytes_delivered": st.client_bytes, "server_bytes_written": st.server_bytes},
+            "runs_per_hour_extrapolated": runs_per_hour,
+            "workers": res.workers,
+            "faults_fired": faults,
+            "reach_probes": probes,
+            "unreached_probes": unreached,
+            "run_end_classes": st.ends,
+            "other_rule_hits_not_owned_by_this_property": st.other_rule_hits,
+            "known_finding_hits": st.known_hits.iter().map(|(k, v)| (k.clone(), v.0)).collect::<BTreeMap<_, _>>(),
+            "determinism_rechecked_runs": st.determinism_checked,
+            "side_checks": side,
+            "components": components(),
+            "violation_details": viol,
+            "exhaustive": false
+        },
+        "assumptions": check.assumptions(),
+        "wall_s": (res.wall_s * 1000.0).round() / 1000.0,
+        "violations": nviol
+    });
+    let dir = verif_dir().join("evidence");
+    let _ = std::fs::create_dir_all(&dir);
+    let p = dir.join(format!("{}.json", check.id()));
+    std::fs::write(&p, serde_json::to_string_pretty(&ev).unwrap()).expect("write evidence");
+}
+
+fn cmd_replay(path: &str, quiet: bool) -> i32 {
+    let text = match std::fs::read_to_string(path) {
+        Ok(t) => t,
+        Err(e) => {
+            eprintln!("harness: cannot read {}: {}", path, e);
+            return 2;
+        }
+    };
+    let rf: ReplayFile = match serde_json::from_str(&text) {
+        Ok(r) => r,
+        Err(e) => {
+            // side-check replay files are descriptive only
+            if text.contains("\"side_check\"") {
+                let v: serde_json::Value = serde_json::from_str(&text).unwrap_or(json!(null));
+                let id = v["property"].as_str().unwrap_or("?").to_string();
+                let check = find_check(&id);
+                let mut side = BTreeMap::new();
+                let mut sv = Vec::new();
+                check.side_checks(&mut side, &mut sv);
+                if sv.iter().any(|(n, _)| Some(n.as_str()) == v["side_check"].as_str()) {
+                    say!("VIOLATION property={} replay={}", id, path);
+                    return 1;
+                }
+                return 0;
+            }
+            eprintln!("harness: cannot parse {}: {}", path, e);
+            return 2;
+        }
+    };
+    let check = find_check(&rf.property);
+    let known = Known::load();
+    let out = sim::simulate(&rf.plan);
+    let (mine, other) = judge_for(check.as_ref(), &rf.plan, &out);
+    if !quiet {
+        say!("replay {} property={} signature={:?}", path, rf.property, rf.signature);
+        say!("plan: {}", serde_json::to_string(&compact_plan(&rf.plan)).unwrap());
+        for e in &out.w.events {
+            say!("  {:?}", e);
+        }
+        for (op, cb) in &out.w.callbacks {
+            say!("  callback@op{} {}", op, cb.short());
+        }
+        for a in &out.w.api {
+            say!("  api act#{} {} -> {}", a.act, a.call, if a.ok { "Ok".to_string() } else { format!("Err({})", a.detail) });
+        }
+        say!("  run_on -> {:?}", out.end);
+        for v in &mine {
+            say!("  violation[{}] {} :: {}", v.rule, v.site, v.detail);
+        }
+        for v in &other {
+            say!("  (not owned by {}) [{}] {} :: {}", rf.property, v.rule, v.site, v.detail);
+        }
+    }
+    let hit = mine
+        .iter()
+        .any(|v| v.rule == rf.signature.rule && v.site == rf.signature.site && known.matches(check.id(), v).is_none());
+    if hit {
+        if !quiet {
+            say!("VIOLATION property={} replay={}", rf.property, path);
+        }
+        1
+    } else {
+        if !quiet {
+            say!("replay: recorded signature does not recur on this tree");
+        }
+        0
+    }
+}
+
+fn cmd_show(id: &str, tier: Tier, job: u64) -> i32 {
+    // debugging aid: print the plans of one job and their verdicts
+    struct Dump<'a>(&'a dyn Check);
+    let check = find_check(id);
+    let known = Known::load();
+    let seed = seed_from_env();
+    let idhash = rng::fnv(check.id().as_bytes());
+    let tier_n = if tier == Tier::Quick { 1 } else { 2 };
+    let mut r = rng::Rng::new(rng::mix(&[seed, idhash, tier_n, job]));
+    let mut ctx = JobCtx {
+        check: check.as_ref(),
+        known: &known,
+        stats: Stats::default(),
+        job,
+        sub: 0,
+        want_sample: true,
+        det_check: false,
+        stop_on_fail: false,
+    };
+    let _ = Dump(check.as_ref()).0;
+    check.run_job(&mut r, tier, job, &mut ctx);
+    for s in &ctx.stats.samples {
+        say!("{}", serde_json::to_string(&s.1).unwrap());
+    }
+    for f in &ctx.stats.failures {
+        say!("FAIL sub={} [{}] {} :: {}", f.sub, f.violation.rule, f.violation.site, f.violation.detail);
+        say!("{}", serde_json::to_string(&f.plan).unwrap());
+    }
+    say!("evaluations={} ends={:?} other={:?}", ctx.stats.evaluations, ctx.stats.ends, ctx.stats.other_rule_hits);
+    0
+}
+
+fn cmd_selftest(n: u64) -> i32 {
+    // print one line per (check, job): trace hashes; the wrapper script diffs the outputs of
+    // separate processes and worker counts
+    let known = Known::load();
+    let seed = seed_from_env();
+    for check in all_checks() {
+        let idhash = rng::fnv(check.id().as_bytes());
+        for job in 0..n {
+            let mut r = rng::Rng::new(rng::mix(&[seed, idhash, 1, job]));
+            struct Rec<'a> {
+                inner: &'a dyn Check,
+            }
+            let _ = Rec { inner: check.as_ref() }.inner;
+            let mut ctx = JobCtx {
+                check: check.as_ref(),
+                known: &known,
+                stats: Stats::default(),
+                job,
+                sub: 0,
+                want_sample: false,
+                det_check: true,
+                stop_on_fail: false,
+            };
+            check.run_job(&mut r, Tier::Quick, job, &mut ctx);
+            let mut shapes: Vec<u64> = ctx.stats.trace_shapes.iter().cloned().collect();
+            shapes.sort_unstable();
+            say!(
+                "{} job={} evals={} ops={} cbytes={} sbytes={} shapes={:x} mismatch={}",
+                check.id(),
+                job,
+                ctx.stats.evaluations,
+                ctx.stats.ops,
+                ctx.stats.client_bytes,
+                ctx.stats.server_bytes,
+                rng::mix(&shapes),
+                ctx.stats.determinism_mismatch.len()
+            );
+            if !ctx.stats.determinism_mismatch.is_empty() {
+                return 2;
+            }
+        }
+    }
+    0
+}
 
 fn main() {
+    redirect_stdout();
     panichook::install();
-    let cmds = vec![
-        Cmd { seq: 0, kind: CmdKind::Ping, act: Act::None },
-        Cmd {
-            seq: 0,
-            kind: CmdKind::Query(Blob::lit(b"SELECT 1")),
-            act: Act::Program(Program {
-                units: vec![Unit::Rows(RowsUnit {
-                    cols: vec![ColSpec { table: Blob::lit(b"t"), name: Blob::lit(b"c"), coltype: 8, flags: 0 }],
-                    rows: vec![vec![Cell::I64(42)], vec![Cell::Null(0)]],
-                    write_row: false,
-                    last_row_ended: true,
-                    close: Close::Finish,
-                    contra: None,
-                })],
-                end: End::Implicit,
-                ret_err: None,
-                probe_cells: false,
-            }),
-        },
-        Cmd { seq: 0, kind: CmdKind::Quit, act: Act::None },
-    ];
-    let mut p = Plan::basic(cmds);
-    p.reads.tail = Tail::Fixed(3);
-    p.arrival = Arrival::lockstep();
-    let out = sim::simulate(&p);
-    println!("end: {:?}", out.end);
-    for e in &out.w.events {
-        println!("{:?}", e);
-    }
-    for c in &out.w.callbacks {
-        println!("cb {} {}", c.0, c.1.short());
-    }
-    println!("violations: {:#?}", judge::all(&p, &out));
-    println!("{}", serde_json::to_string(&p).unwrap());
+    let args: Vec<String> = std::env::args().collect();
+    let tier_of = |s: &str| match s {
+        "quick" => Tier::Quick,
+        "thorough" => Tier::Thorough,
+        _ => {
+            eprintln!("harness: tier must be quick or thorough");
+            std::process::exit(2)
+        }
+    };
+    let code = match args.get(1).map(|s| s.as_str()) {
+        Some("run") if args.len() >= 4 => cmd_run(&args[2], tier_of(&args[3])),
+        Some("replay") if args.len() >= 3 => cmd_replay(&args[2], args.get(3).map(|s| s == "--quiet").unwrap_or(false)),
+        Some("show") if args.len() >= 5 => cmd_show(&args[2], tier_of(&args[3]), args[4].parse().unwrap_or(0)),
+        Some("selftest") => cmd_selftest(args.get(2).and_then(|s| s.parse().ok()).unwrap_or(50)),
+        Some("list") => {
+            for c in all_checks() {
+                say!("{}", c.id());
+            }
+            0
+        }
+        _ => {
+            eprintln!("usage: simcheck run <ID> <quick|thorough> | replay <file> [--quiet] | show <ID> <tier> <job> | selftest [n] | list");
+            2
+        }
+    };
+    std::process::exit(code);
 }
